@@ -43,6 +43,12 @@ NOT_DECIDED = ('reference balance inside the C helpers other than the slot proto
                'which sub-expressions a node evaluates through loops over lists of nodes (LIFE/OVR see explicit self.X receivers only).')
 
 
+DECIDES += (' MGDCLEAR (batch 12, rules/s10C35.py): every local bound from allocate_temp(..., manage_ref=True) in a code-generating function is given up only through a clearing '
+            'decref emitter (put_decref_clear / put_xdecref_clear) or a plain put_decref / put_xdecref directly followed by an emitted assignment to the same temp; a managed temp that keeps a '
+            'released pointer is released again by the error cleanup (XDECREF of all managed temps).')
+TECHNIQUE += '; syntactic typestate of managed temps (allocation site -> decref emitter -> next emitted statement) over all code-generating functions, instances inferred from the allocation calls'
+
+
 def run(ctx):
     # sC35.rule_args_nullsafe found generate_stararg_init_code decref_clear-ing the NULL entry of an unused **kwargs (Py_DECREF(NULL) when the *args slice fails); repaired in /repo (63b53eadb)
     rules = [gen2.rule_G1(ctx), gen2.rule_G2(ctx), gen2.rule_G5(ctx), gen2.rule_G7(ctx), sC35.rule_args(ctx), sC35.rule_args_nullsafe(ctx)]
@@ -59,10 +65,14 @@ def run(ctx):
     # eighth round (rules/s8C35.py): error-exit emitters derived from CCodeWriter (also used by BORROW / SETUP); path-sensitive G7 over that set
     from ..rules import s8C35
     rules += s8C35.rules(ctx)
+    # batch 12 (rules/s10C35.py): a managed temp is given up only by a clearing decref or decref-then-overwrite
+    from ..rules import s10C35
+    rules += s10C35.rules(ctx)
     return rules
 
 
 MUTATIONS = [
+    ('Cython/Compiler/ExprNodes.py', 'SEED C35o: generate_generic_parallel_unpacking_code: put_decref_clear(iterator_temp) -> put_decref(iterator_temp) at the unpacking_failed label', 'C35-MGDCLEAR ExprNodes.SequenceNode.generate_generic_parallel_unpacking_code:iterator_temp'),
     # (file, single edit on a scratch copy, rule / construct that reported it)
     ('Cython/Compiler/Nodes.py', 'seed C35b: error-label cleanup `if has_star_or_kw_args:` -> `if self.star_arg:`', 'C35-ARGS Nodes.DefNodeWrapper.generate_argument_parsing_code:starstar_arg'),
     ('Cython/Compiler/Nodes.py', 'error-label cleanup `if has_star_or_kw_args:` -> `if has_kwonly_args:`', 'C35-ARGS ...:starstar_arg and :star_arg'),
